@@ -4,7 +4,9 @@ package api
 
 // C10 - Row-level delete removes exactly the rows the predicate selects.
 //
-// Generator: 1-5 Parquet files in one measurement (hour- and day-level paths),
+// Generator: 1-5 Parquet files in one measurement, in hour- and day-level
+// partition directories over several days (incl. one before 2020 and one in the
+// far future) with row times inside their partition,
 // nullable columns of every type (~25 % NULLs), predicates from a grammar of
 // comparisons, AND/OR/NOT, parentheses, IN, LIKE, IS [NOT] NULL, BETWEEN that
 // validateWhereClause admits. Oracle: a separate plain DuckDB evaluates the
